@@ -49,7 +49,7 @@ ASSUMPTIONS = [
     "keep with a consuming post routine and context forms +0 (one slot needed while they run)",
     "min_fidelity_all_at_end variants (run-time dependent freeing) are not generated",
 ]
-PROBES = ["id-reused-after-measure", "id-reused-after-free", "epr-qubit-mapped", "nv-config", "nv-transpiler", "generic",
+PROBES = ["keep-min-fidelity", "keep-min-fidelity-retried", "keep-min-fidelity-never-reached", "id-reused-after-measure", "id-reused-after-free", "epr-qubit-mapped", "nv-config", "nv-transpiler", "generic",
           "keep-plain", "keep-sequential-post", "keep-context", "create-role", "recv-role", "budget-1", "budget-5",
           "nv-relocation-of-id0"]
 
@@ -85,6 +85,7 @@ def gen_ops(ch: Choices, cap: int, budget: int, avoid: set, calm: bool, nv: bool
             add("keep_plain", 3)
             add("keep_seq_post", 2)
             add("keep_context", 2)
+            add("keep_minfid", 2)
         add("flush", 4)
         k = kinds[ch.weighted(w, "op")]
         if k == "qubit":
@@ -116,6 +117,22 @@ def gen_ops(ch: Choices, cap: int, budget: int, avoid: set, calm: bool, nv: bool
                 nq += 1
             live.extend(names)
             ops.append(("keep_plain", "create" if ch.flag(1, 2, "role") else "recv", names))
+        elif k == "keep_minfid":
+            # keep with a minimum-fidelity constraint: the SDK wraps the request in a retry loop that frees the pairs of
+            # a too-slow attempt and asks again; `slow` says which attempts the link reports as too slow
+            m = 1 + ch.draw(min(2, room), "npairs")
+            if nv and live and "nv-keep-multi-with-live" in avoid:
+                m = 1
+            names = []
+            for _i in range(m):
+                names.append(f"q{nq}")
+                nq += 1
+            live.extend(names)
+            tries = 1 + ch.draw(3, "tries")
+            slow = [ch.flag(1, 2, "slow") for _ in range(tries)]
+            if "min-fidelity-never-reached" in avoid:
+                slow[-1] = False
+            ops.append(("keep_minfid", "create" if ch.flag(1, 2, "role") else "recv", names, 50 + ch.draw(51, "fid"), tries, slow))
         elif k == "keep_seq_post":
             m = 1 + ch.draw(3, "npairs")
             ops.append(("keep_seq_post", "create" if ch.flag(1, 2, "role") else "recv", m))
@@ -169,6 +186,18 @@ def run(ch: Choices, opts: Dict[str, Any]) -> Dict[str, Any]:
     SimNetworkInfo.node_ids["g7"] = GHOST
     SimNetworkInfo.app_nodes["ghost"] = "g7"
 
+    create_plans: List[Optional[List[int]]] = []   # per create-role request, in issue order: the durations to report
+
+    def goodness(job, k):
+        if job.get("request") is None:
+            pl = job.get("tag")
+        else:
+            if "plan" not in job:
+                job["plan"] = create_plans.pop(0) if create_plans else None
+            pl = job["plan"]
+        return None if pl is None else pl[k]
+    link.goodness_override = goodness
+
     def host_task():
         sock = EPRSocket("ghost", epr_socket_id=0, remote_epr_socket_id=0)
         hwc = NVHardwareConfig(budget) if hw == "nv" else GenericHardwareConfig(budget)
@@ -211,11 +240,41 @@ def run(ch: Choices, opts: Dict[str, Any]) -> Dict[str, Any]:
                     state["kinds"].add(k)
                     role, names = op[1], op[2]
                     got = sock.create_keep(number=len(names)) if role == "create" else sock.recv_keep(number=len(names))
+                    if role == "create":
+                        create_plans.append(None)
                     for nm, q in zip(names, got):
                         qs[nm] = q
                     if role == "recv":
                         link.submit(creator=GHOST, receiver=0, purpose_c=0, purpose_r=0, tp=RequestType.K, number=len(names))
                     bump(probes, "keep-plain")
+                    bump(probes, role + "-role")
+                    state["epr"] = True
+                elif k == "keep_minfid":
+                    state["kinds"].add(k)
+                    role, names, fid, tries, slow = op[1:]
+                    maxt = 100_000 - fid * 900       # the documented conversion of the fidelity bound into a duration
+                    attempts = (slow.index(False) + 1) if False in slow else tries
+                    plans = []
+                    for a in range(attempts):
+                        last = maxt + 1 + ch.draw(3, "over") if slow[a] else max(0, maxt - ch.draw(3, "under"))
+                        plans.append([ch.draw(2 * maxt, "dur") for _ in names[:-1]] + [last])
+                    if role == "create":
+                        got = sock.create_keep(number=len(names), min_fidelity_all_at_end=fid, max_tries=tries)
+                        create_plans.extend(plans)
+                    else:
+                        got = sock.recv_keep(number=len(names), min_fidelity_all_at_end=fid, max_tries=tries)
+                        for pl in plans:
+                            link.submit(creator=GHOST, receiver=0, purpose_c=0, purpose_r=0, tp=RequestType.K,
+                                        number=len(names), tag=pl)
+                    for nm, q in zip(names, got):
+                        qs[nm] = q
+                    bump(probes, "keep-min-fidelity")
+                    if attempts > 1:
+                        bump(probes, "keep-min-fidelity-retried")
+                        bump(faults, "link-reports-slow-generation", sum(1 for a in range(attempts) if slow[a]))
+                    if False not in slow:
+                        bump(probes, "keep-min-fidelity-never-reached")
+                        state["kinds"].add("minfid_exhausted")
                     bump(probes, role + "-role")
                     state["epr"] = True
                 elif k == "keep_seq_post":
@@ -229,6 +288,7 @@ def run(ch: Choices, opts: Dict[str, Any]) -> Dict[str, Any]:
 
                     if role == "create":
                         sock.create_keep(number=m, post_routine=post, sequential=True)
+                        create_plans.append(None)
                     else:
                         sock.recv_keep(number=m, post_routine=post, sequential=True)
                         link.submit(creator=GHOST, receiver=0, purpose_c=0, purpose_r=0, tp=RequestType.K, number=m)
@@ -244,6 +304,8 @@ def run(ch: Choices, opts: Dict[str, Any]) -> Dict[str, Any]:
                     with ctx as (q, pair):
                         q.H()
                         q.measure(future=outcomes.get_future_index(pair))
+                    if role == "create":
+                        create_plans.append(None)
                     if role == "recv":
                         link.submit(creator=GHOST, receiver=0, purpose_c=0, purpose_r=0, tp=RequestType.K, number=m)
                     bump(probes, "keep-context")
@@ -254,6 +316,8 @@ def run(ch: Choices, opts: Dict[str, Any]) -> Dict[str, Any]:
             except Violation:
                 raise
             except Exception as e:  # noqa: BLE001 -- the SDK refused a program that stays within the budget
+                while e.__context__ is not None and isinstance(e.__context__, Exception):
+                    e = e.__context__      # the first failure, not the one raised while a context manager unwound
                 fr = traceback.extract_tb(e.__traceback__)[-1]
                 raise Violation("sdk", f"sdk-exception|{type(e).__name__}|{fr.name}|{k}|{hw}|{eprs()}",
                                 {"op_index": i, "op": op, "error": str(e)[:300], **sample})
